@@ -177,6 +177,17 @@ theorem semiprime_factors (p q a b : ℕ) (hp : p.Prime) (hq : q.Prime) (hpq : p
       subst this
       simp
 
+/-- A prime has no factorisation `a·b` with `1 < a ≤ b`. -/
+theorem prime_no_factors (n a b : ℕ) (hn : n.Prime) (hab : a * b = n) (ha : 1 < a) (hle : a ≤ b) : False := by
+  have hd : a ∣ n := Dvd.intro b hab
+  rcases (Nat.dvd_prime hn).mp hd with h | h
+  · omega
+  · subst h
+    have hb : b = 1 := by
+      have : a * b = a * 1 := by rw [hab, mul_one]
+      exact Nat.eq_of_mul_eq_mul_left (by omega) this
+    omega
+
 /-! ## Connection to the model -/
 
 /-- The specification's table, as the model's `checkGPWith` argument. -/
